@@ -1006,7 +1006,22 @@ func isBroadcast(ip net.IP, network *net.IPNet) bool {
 	// Check for all-ones broadcast
 	ip4 := ip.To4()
 	if ip4 != nil {
-		return ip4[0] == 255 && ip4[1] == 255 && ip4[2] == 255 && ip4[3] == 255
+		if ip4[0] == 255 && ip4[1] == 255 && ip4[2] == 255 && ip4[3] == 255 {
+			return true
+		}
+		// Directed broadcast: the last address of the network (a /31 or /32 has none)
+		if network != nil {
+			base := network.IP.To4()
+			if ones, bits := network.Mask.Size(); base != nil && bits == 32 && ones < 31 {
+				for i := range ip4 {
+					if ip4[i] != base[i]|^network.Mask[i] {
+						return false
+					}
+				}
+				return true
+			}
+		}
+		return false
 	}
 	// For MAC address broadcast check
 	if len(ip) == 6 {
